@@ -438,7 +438,7 @@ def alphabet(desc, hist, spec):
             for fn in tasks:
                 ops.append(['value', slot, fn])
         if 'tforce' in enabled:
-            for fn in spec.get('force_tasks', {}).get(vid, tasks):
+            for fn in (spec.get('force_tasks') or {}).get(vid, tasks):
                 for delete in spec.get('delete_flags', (False, True)):
                     ops.append(['tforce', slot, fn, delete])
         if 'cforce' in enabled:
@@ -479,7 +479,38 @@ def _resolve(name):
     return getattr(importlib.import_module(mod), attr)
 
 
-def explore(desc, spec, judge_name, stateless_depth, merged_depth, seed=0, max_states=None):
+def _last_obs(desc, spec, hist):
+    ex = Exec(desc, records=False, parameter_mode=spec.get('parameter_mode', True))
+    try:
+        for op in hist:
+            obs, exp = ex.step(op)
+        return [obs.get('term'), obs.get('error') is not None, obs.get('run_objs'), obs.get('has_data'), obs.get('forced'), ex.canon()]
+    finally:
+        ex.close()
+
+
+def _crosscheck(args):
+    """DESIGN 5.3: a history that was merged into a representative (same canonical state) must have the same one-step
+    futures: every operation of the alphabet is executed after both and the observations are compared"""
+    import tcv
+
+    tcv.quiet_library()
+    desc, spec, pairs = args
+    bad = []
+    n = 0
+    for h, rep in pairs:
+        for op in alphabet(desc, h, spec):
+            if op not in alphabet(desc, rep, spec):
+                bad.append(f'alphabets differ after {h} vs {rep}: {op}')
+                continue
+            a, b = _last_obs(desc, spec, h + [op]), _last_obs(desc, spec, rep + [op])
+            n += 1
+            if a != b:
+                bad.append(f'merged histories {h} and {rep} differ on {op}: {a} vs {b}')
+    return n, bad[:3]
+
+
+def explore(desc, spec, judge_name, stateless_depth, merged_depth, seed=0, max_states=None, crosscheck=None):
     """BFS. Levels <= stateless_depth keep every history (no merging); deeper levels keep one representative per
     canonical state. Returns Result with states/transitions/etc."""
     from tcv.pool import NPROC, pmap
@@ -487,6 +518,8 @@ def explore(desc, spec, judge_name, stateless_depth, merged_depth, seed=0, max_s
     res = Result()
     frontier = [[]]
     seen = set()
+    rep = {}
+    merged_pairs = []
     obsvecs = set()
     capped = False
     depth_done = 0
@@ -509,6 +542,10 @@ def explore(desc, spec, judge_name, stateless_depth, merged_depth, seed=0, max_s
                     res.violations.append(Violation(v['signature'], v['what'], v['case']))
                 new_state = c not in seen
                 seen.add(c)
+                if new_state:
+                    rep[c] = h2
+                elif depth >= stateless_depth and not vs and rep[c] != h2:
+                    merged_pairs.append((h2, rep[c]))
                 keep = depth < stateless_depth or new_state
                 if keep and depth < merged_depth:
                     nxt.append(h2)
@@ -520,6 +557,20 @@ def explore(desc, spec, judge_name, stateless_depth, merged_depth, seed=0, max_s
         frontier = nxt
         if len(res.violations) > 200:
             break
+    # soundness cross-check of the canonical-state merging on a deterministic selection of merged histories
+    if crosscheck is None:
+        crosscheck = 40 if os.environ.get('VERIF_TIER') == 'thorough' or merged_depth >= 6 else 5
+    if crosscheck and merged_pairs and not res.violations:
+        merged_pairs.sort(key=jdump)
+        step = max(1, len(merged_pairs) // crosscheck)
+        sel = merged_pairs[seed % step::step][:crosscheck]
+        nchk = 0
+        for n_, bad in pmap(_crosscheck, [(desc, spec, sel[i::16]) for i in range(16) if sel[i::16]]):
+            nchk += n_
+            for b in bad:
+                res.harness_errors.append(f'canonical-state merging unsound ({desc["name"]}): {b}')
+        res.coverage['merge_crosschecks'] = nchk
+    res.coverage['merged_histories'] = len(merged_pairs)
     res.coverage['states'] = len(seen)
     res.coverage['distinct_observation_vectors'] = len(obsvecs)
     res.coverage['depth_completed'] = depth_done
